@@ -628,6 +628,22 @@ func TestCorr(t *testing.T) {
 				t.Fatalf("%s: %v", p, err)
 			}
 			newARunner(t, run, c.Powers).history(c.Ops)
+		case "set-active":
+			var c struct {
+				Variant string `json:"variant"`
+			}
+			if err := json.Unmarshal(bz, &c); err != nil {
+				t.Fatalf("%s: %v", p, err)
+			}
+			setActiveScenario(t, run, c.Variant)
+		case "metrix-history":
+			var c struct {
+				Events []relayEv `json:"events"`
+			}
+			if err := json.Unmarshal(bz, &c); err != nil {
+				t.Fatalf("%s: %v", p, err)
+			}
+			metrixHistory(t, run, c.Events)
 		case "usc-receipt":
 			var c struct {
 				Logs  string   `json:"logs"`
@@ -762,6 +778,15 @@ func TestCorr(t *testing.T) {
 		}
 		uscScenario(t, run, sh, nv, encs...)
 		run.Count("source", "usc-receipt")
+	}
+
+	// ---- round 6: SetSmartContractAsActive with the deployment record removed mid-flight; metrix with aged-out relay histories ----
+	for _, v := range []string{"in-flight", "removed", "other-chain"} {
+		setActiveScenario(t, run, v)
+	}
+	for i := 0; i < run.N/5; i++ {
+		metrixHistory(t, run, genMetrixHistory(run))
+		run.Count("source", "metrix-history")
 	}
 
 	// ---- the version gate: real paloma BeginBlock over (binary version, completed upgrade) pairs ----
